@@ -335,7 +335,15 @@ def exec_logodds(cx, head, tail):
     pseudo = parse_pyarg(tk)
     cm = mk_counts(cx.lm, alpha, counts)
     w = cm.normalize(pyarg_object(pseudo)) if pseudo[0] != "n" else cm.normalize()
-    g = guarded(lambda: rows_bits(w.log_odds(pyarg_object(arg), bits_f32(base))))
+    def call_log_odds():
+        # the documented defaults (background=None, base=2.0) are left out when the case has them
+        if bits_f32(base) == 2.0 and arg[0] == "n":
+            return w.log_odds()
+        if bits_f32(base) == 2.0:
+            return w.log_odds(pyarg_object(arg))
+        return w.log_odds(pyarg_object(arg), bits_f32(base))
+
+    g = guarded(lambda: rows_bits(call_log_odds()))
     cspec = f"{M} {join(flat(counts))} {pyarg_tokens(pseudo)}"
     arr = pyarg_array(alpha, arg) if arg[0] == "d" else None
     valid = arg[0] == "n" or (arr is not None and bg_valid(arr))
@@ -497,9 +505,9 @@ def exec_pvalue(cx, head, tail):
     pssm = mk_pssm(cx.lm, alpha, spec)
     xv = bits_f64(x)
     if which == "pvalue":
-        g = guarded(lambda: f64_bits(pssm.pvalue(xv, method)))
+        g = guarded(lambda: f64_bits(pssm.pvalue(xv) if (method == "meme" and x % 2 == 0) else pssm.pvalue(xv, method)))
     elif which == "score":
-        g = guarded(lambda: f64_bits(pssm.score(xv, method)))
+        g = guarded(lambda: f64_bits(pssm.score(xv) if (method == "meme" and x % 2 == 0) else pssm.score(xv, method)))
     else:
         g = guarded(lambda: f32_bits(pssm.max_score()))
     errs, labels, key = [], [], f"pvalue/{which}/{method if method in ('meme', 'tfmpvalue') else 'other'}"
@@ -614,8 +622,16 @@ def exec_scan(cx, head, tail):
     use_fn = (thr + block) % 2 == 0
 
     def run():
-        sc = (cx.lm.scan(pssm, seq, threshold=bits_f32(thr), block_size=block) if use_fn
-              else cx.lm.Scanner(pssm, seq, bits_f32(thr), block))
+        t0, b0 = bits_f32(thr) == 0.0 and thr == 0, block == 256
+        if t0 and b0:
+            sc = cx.lm.scan(pssm, seq) if use_fn else cx.lm.Scanner(pssm, seq)
+        elif b0:
+            sc = cx.lm.scan(pssm, seq, threshold=bits_f32(thr)) if use_fn else cx.lm.Scanner(pssm, seq, bits_f32(thr))
+        elif t0 and use_fn:
+            sc = cx.lm.scan(pssm, seq, block_size=block)
+        else:
+            sc = (cx.lm.scan(pssm, seq, threshold=bits_f32(thr), block_size=block) if use_fn
+                  else cx.lm.Scanner(pssm, seq, bits_f32(thr), block))
         return sorted((h.position, f32_bits(h.score)) for h in sc)
 
     g = guarded(run)
@@ -1528,6 +1544,10 @@ def generate(cfg, core, out):
         # every alignment of block boundaries with the sequence rows and the look-ahead rows
         block = rng.pick([1, 2, 3, 7, 16, 64, 255, 256, 257, max(1, R - 1), R, R + 1, R + W, 1000])
         cases.append(f"c17scan ? dna dna | {rng.pick(BACKENDS)} {f32_bits(r32(thr))} {block} {L} {join(syms)} {pssm_tokens((rows, None))}")
+    # the documented defaults (threshold = 0.0, block_size = 256): left out by the call when the case has them
+    for L, M, thr, block in [(700, 6, 0.0, 256), (9000, 4, 0.0, 256), (300, 5, 0.0, 7), (9000, 5, 2.5, 256), (100, 3, 0.0, 256)]:
+        syms = rand_syms(rng, "dna", L)
+        cases.append(f"c17scan ? dna dna | {rng.pick(BACKENDS)} {f32_bits(thr)} {block} {L} {join(syms)} {pssm_tokens((logodds_pssm(rng, 'dna', M), None))}")
     # block boundary inside the look-ahead rows; L < M; empty sequence
     for L, M, block in [(64, 5, 1), (100, 8, 4), (3, 6, 256), (0, 3, 256), (40, 2, 1)]:
         syms = rand_syms(rng, "dna", L)
